@@ -56,6 +56,13 @@ class Gen:
             return {fn: self.sample(ft, depth + 1) for fn, ft in t[2]}
         if k == "array":
             dims = [d if d is not None else (self.dim(depth) if callable(self.dim) else self.dim) for d in t[2]]
+            if len(dims) > 1 and 0 in dims:
+                # a nested list can only express an empty LAST axis ([[],[]] has shape (2,0), [] is
+                # ambiguous): other dynamic axes get length 2; if the last axis is static, no axis is empty
+                if t[2][-1] is None:
+                    dims = [(2 if x == 0 else x) for x in dims[:-1]] + [0]
+                else:
+                    dims = [(1 if x == 0 else x) for x in dims]
 
             def build(ds):
                 if not ds:
@@ -129,6 +136,8 @@ def readback(t, obj):
         return {fn: readback(ft, getattr(obj, fn)) for fn, ft in t[2]}
     if k == "array":
         shape = list(obj._shape)
+        if len(shape) != len(t[2]) or any(not (0 <= int(d) <= 4096) for d in shape):
+            raise ValueError(f"implausible shape {shape} read back (corrupted header?)")
 
         def rec(prefix, lvl):
             if lvl == len(shape):
@@ -199,3 +208,211 @@ def read_top(t, obj):
     if t[0] == "string":
         return obj.to_str()
     return readback(t, obj)
+
+
+# ---------------------------------------------------------------------------
+# access paths (used by the write-side scenarios)
+def dims_of(t, v):
+    """concrete dims of array value v of type t (static dims win)"""
+    return shape_of(t, v)
+
+
+def leaves(t, v, path=()):
+    """yield (path, leaf type, leaf value); path steps: ('f', name) | ('i', index tuple).
+    Reading a reference-typed field/item yields the target itself, so references add no step;
+    a null reference is a leaf of its own."""
+    k = t[0]
+    if k in ("scalar", "string"):
+        yield path, t, v
+    elif k == "struct":
+        for fn, ft in t[2]:
+            yield from leaves(ft, v[fn], path + (("f", fn),))
+    elif k == "array":
+        dims = dims_of(t, v)
+        for idx in itertools.product(*[range(d) for d in dims]):
+            x = v
+            for i in idx:
+                x = x[i]
+            yield from leaves(t[1], x, path + (("i", idx),))
+    elif k == "ref":
+        if v is None:
+            yield path, t, None
+        else:
+            yield from leaves(t[1], v, path)
+    elif k == "uref":
+        if v is None:
+            yield path, t, None
+        else:
+            name, data = v
+            for m in t[2]:
+                if tg.build(m).__name__ == name:
+                    yield from leaves(m, data, path)
+
+
+def compounds(t, v, path=()):
+    """yield (path, type, value) of every compound node (struct/array), root first"""
+    k = t[0]
+    if k == "struct":
+        yield path, t, v
+        for fn, ft in t[2]:
+            yield from compounds(ft, v[fn], path + (("f", fn),))
+    elif k == "array":
+        yield path, t, v
+        dims = dims_of(t, v)
+        for idx in itertools.product(*[range(d) for d in dims]):
+            x = v
+            for i in idx:
+                x = x[i]
+            yield from compounds(t[1], x, path + (("i", idx),))
+    elif k == "ref" and v is not None:
+        yield from compounds(t[1], v, path)
+    elif k == "uref" and v is not None:
+        name, data = v
+        for m in t[2]:
+            if tg.build(m).__name__ == name:
+                yield from compounds(m, data, path)
+
+
+def root_of(t, obj):
+    return obj.get() if t[0] == "uref" else obj
+
+
+def step(obj, st):
+    if st[0] == "f":
+        return getattr(obj, st[1])
+    idx = st[1]
+    return obj[idx if len(idx) > 1 else idx[0]]
+
+
+def get_at(t, obj, path):
+    cur = root_of(t, obj)
+    for st in path:
+        cur = step(cur, st)
+    return cur
+
+
+def set_at(t, obj, path, value):
+    cur = root_of(t, obj)
+    for st in path[:-1]:
+        cur = step(cur, st)
+    st = path[-1]
+    if st[0] == "f":
+        setattr(cur, st[1], value)
+    else:
+        idx = st[1]
+        cur[idx if len(idx) > 1 else idx[0]] = value
+
+
+def type_at(t, v, path):
+    """(type, value) at a path (references are looked through)"""
+
+    def thru(t, v):
+        while t[0] in ("ref", "uref") and v is not None:
+            if t[0] == "ref":
+                t = t[1]
+            else:
+                name, data = v
+                t = [m for m in t[2] if tg.build(m).__name__ == name][0]
+                v = data
+        return t, v
+
+    t, v = thru(t, v)
+    for st in path:
+        if st[0] == "f":
+            t, v = dict(t[2])[st[1]], v[st[1]]
+        else:
+            for i in st[1]:
+                v = v[i]
+            t = t[1]
+        t, v = thru(t, v) if st is not path[-1] else (t, v)
+    return t, v
+
+
+def replace_at(t, v, path, new):
+    """functional update of the plain-python value"""
+    import copy
+
+    v = copy.deepcopy(v)
+    if not path:
+        return new
+
+    def thru(t, v):
+        # returns (type, container holder, key) chain is awkward; operate by recursion instead
+        raise NotImplementedError
+
+    def rec(t, v, path):
+        if t[0] == "ref":
+            return rec(t[1], v, path)
+        if t[0] == "uref":
+            name, data = v
+            m = [m for m in t[2] if tg.build(m).__name__ == name][0]
+            return (name, rec(m, data, path))
+        if not path:
+            return new
+        st = path[0]
+        if st[0] == "f":
+            ft = dict(t[2])[st[1]]
+            v = dict(v)
+            v[st[1]] = rec(ft, v[st[1]], path[1:]) if len(path) > 1 else new
+            return v
+        idx = st[1]
+
+        def upd(x, idx):
+            x = list(x)
+            if len(idx) == 1:
+                x[idx[0]] = rec(t[1], x[idx[0]], path[1:]) if len(path) > 1 else new
+            else:
+                x[idx[0]] = upd(x[idx[0]], idx[1:])
+            return x
+
+        return upd(v, idx)
+
+    return rec(t, v, path)
+
+
+def to_form(t, v, form):
+    """re-express a plain-python sample in another accepted input form.
+    'ndarray': every array of scalars becomes a contiguous ndarray of the item dtype;
+    'ndarray_other': same with a different dtype (forces conversion) when the values allow it;
+    'objarray': arrays of compound items become object ndarrays."""
+    k = t[0]
+    if form == "python":
+        return v
+    if k == "struct":
+        return {fn: to_form(ft, v[fn], form) for fn, ft in t[2]}
+    if k == "array":
+        dims = dims_of(t, v)
+        if t[1][0] == "scalar" and form in ("ndarray", "ndarray_other"):
+            dt = NPT[t[1][1]]
+            arr = np.array(v, dtype=dt).reshape(dims)
+            if form == "ndarray_other":
+                alt = np.float64 if dt is not np.float64 else np.float32
+                a2 = arr.astype(alt)
+                if (a2.astype(dt) == arr).all():
+                    return a2
+            return arr
+        if form == "objarray" and t[1][0] in ("struct", "array", "string"):
+            out = np.empty(dims, dtype=object)
+            for idx in itertools.product(*[range(d) for d in dims]):
+                x = v
+                for i in idx:
+                    x = x[i]
+                out[idx] = to_form(t[1], x, form)
+            return out
+        nd = len(t[2])
+
+        def rec(x, lvl):
+            if lvl == nd:
+                return to_form(t[1], x, form)
+            return [rec(y, lvl + 1) for y in x]
+
+        return rec(v, 0)
+    if k == "ref":
+        return None if v is None else to_form(t[1], v, form)
+    if k == "uref":
+        if v is None:
+            return None
+        name, data = v
+        m = [m for m in t[2] if tg.build(m).__name__ == name][0]
+        return (name, to_form(m, data, form))
+    return v
